@@ -46,6 +46,40 @@ def phi_dict(eps, d):
     return {k: v * eps[k] for k, v in d.items()}
 
 
+def registered_spelling_pass(ctx):
+    """coefficient access by every spelling (all permutations of the letters) of the grade >= 2 blades, inside registered
+    functions, on custom / named bases: the accessor commutes with registration (same value as the direct access)"""
+    from fractions import Fraction
+    from kingdon import Algebra, MultiVector
+    rng = ctx.rng
+    algs = [('3DPGA', Algebra.fromname('3DPGA')), ('2DPGA', Algebra.fromname('2DPGA')),
+            ('custom-e312', make_algebra([1, 1, 1], None, ['e', 'e1', 'e2', 'e3', 'e12', 'e31', 'e23', 'e312'])),
+            ('default-3d', make_algebra([1, -1, 1]))]
+    for nm, alg in algs:
+        full = list(alg.canon2bin.values())
+        x = MultiVector.fromkeysvalues(alg, tuple(full), [Fraction(rng.randint(1, 9)) for _ in full])
+        names = [n for n in alg.canon2bin if 3 <= len(n) <= 4]
+        for name in names:
+            perms = list(itertools.permutations(name[1:]))
+            rng.shuffle(perms)
+            for perm in perms[:6]:
+                sp = 'e' + ''.join(perm)
+                ns = {}
+                exec(f'def acc_{sp}(x):\n    return x.{sp} * x\n', ns)
+                f = ns[f'acc_{sp}']
+                case = {'algebra': nm, 'blade': name, 'spelling': sp}
+                ctx.case(case, tag='registered-spelling')
+                exp = mv_to_dict(f(x))
+                try:
+                    got = mv_to_dict(alg.register(f)(x))
+                except Exception as e:
+                    ctx.violation('registered-accessor-raises', case, str(exp)[:200], repr(e)[:200], key='accessor:registered:raises')
+                    continue
+                if got != exp:
+                    ctx.violation('registered-accessor', case, str(exp)[:200], str(got)[:200], key='accessor:registered')
+                    break
+
+
 def run(ctx):
     from kingdon import Algebra, MultiVector
     from kingdon.operator_dict import AlgebraError
@@ -186,6 +220,7 @@ def run(ctx):
             exp_names = ['e' + ''.join(hexd(int(ch, 16) - a0.start_index + start) for ch in n[1:]) for n in a0.canon2bin.keys()]
             if names1 != exp_names:
                 ctx.violation('start-index-names', {'sig': sig, 'start': start}, exp_names, names1, key='start-index')
+    registered_spelling_pass(ctx)
     # rejection of operands from algebras whose metric or basis differ
     pool = [('sig+-', make_algebra([1, -1])), ('sig-+', make_algebra([-1, 1])), ('sig++', make_algebra([1, 1])),
             ('pga-default', make_algebra([0, 1, 1])), ('pga-named', Algebra.fromname('2DPGA')), ('sig110', make_algebra([1, 1, 0])),
